@@ -1,3 +1,5 @@
+//go:build go1.21
+
 // Package sched is the controlled scheduler behind the E1 engine.  It is
 // mapped into the ipfs-cluster module as a virtual package
 // (github.com/ipfs/ipfs-cluster/verifshim/sched) by a build overlay, so that
@@ -154,7 +156,7 @@ func Point(kind OpKind, res Res, skip int) {
 	if s == nil || !s.active.Load() {
 		return
 	}
-	s.point(kind, res, caller(skip+1))
+	s.point(kind, res, caller(skip+2))
 }
 
 // P is the form inserted by the source rewriter before/after channel
